@@ -892,7 +892,9 @@ type Struct struct {
 }
 
 func (c StoreConfig) secretNames() ([]string, []*Fields, error) {
-	sec := c.Secrets
+	// Work on a copy: sorting and compacting below must not rearrange (or,
+	// for a list with duplicates, blank out the tail of) the caller's slice.
+	sec := slices.Clone(c.Secrets)
 	var svs []*Fields
 	for _, s := range c.Structs {
 		fs, err := ParseFields(s.Value, s.Prefix)
